@@ -72,9 +72,10 @@ def model(ctx, module, cfg, props, sim=None, expect=None, workers=4, cache=True,
         skel = tlc.leaves(r["out"], "SKEL ")
         r = {"ok": r["ok"], "violated": r["violated"], "stats": r["stats"], "wall": r["wall"], "cmd": r["cmd"],
              "leaves": tlc.leaves(r["out"]), "skel": skel[0] if skel else None, "cached": False}
-        with open(cp + ".tmp", "w") as fh:
-            json.dump(r, fh)
-        os.replace(cp + ".tmp", cp)
+        if ctx.quick:
+            with open(cp + ".tmp", "w") as fh:
+                json.dump(r, fh)
+            os.replace(cp + ".tmp", cp)
     label = cfg + (" (-simulate num=%d depth=%d seed=%d)" % sim if sim else "")
     if expect:
         if r["violated"] != expect:
